@@ -591,6 +591,8 @@ def standard_flow(out, spec, tier, seed, replay):
         try:
             ev = spec.evaluate(extra)
             failing = [c for c, v in zip(extra, ev) if v % 10 == 2]
+            if not differing:
+                differing = [c for c, v in zip(extra, ev) if v % 10 == 1]
         except TieBroken as ex:
             tie_error = str(ex)
 
@@ -614,9 +616,13 @@ def standard_flow(out, spec, tier, seed, replay):
                        "replay_cmd": "./check %s --replay <this file>" % prop})
     if reported_unknown == 0:
         if not pr.ok:
-            out.violation({"what": "proof obligations no longer check", "problems": pr.problems,
-                           "theorems": pr.theorems, "log_tail": pr.log[-1500:], "searched_cases": searched + len(cases)},
-                          no_failing_input=True)
+            payload = {"what": "proof obligations no longer check", "problems": pr.problems,
+                       "theorems": pr.theorems, "log_tail": pr.log[-1500:], "searched_cases": searched + len(cases)}
+            if differing:
+                # no input on which the property fails, but one on which the implementation no longer does what the model does
+                payload["implementation_differs_from_model_on"] = shrink_diff(spec, differing[0])
+                payload["correspondence"] = "Tie/%s.v verdict" % prop
+            out.violation(payload, no_failing_input=True)
         elif tie_error is not None:
             out.violation({"what": "the correspondence check could not be run against the current tree", "error": tie_error[-2000:]},
                           no_failing_input=True)
